@@ -17,6 +17,7 @@ fn c19_db_special_cases_all_f32() {
 	if d <= -60.0 { assert!(a == 0.0 && a.is_sign_positive(), "-60 dB or less maps to exactly 0"); }
 	if !d.is_nan() {
 		assert!(!a.is_nan() && a >= 0.0, "amplitude of a non-NaN level is a non-negative number");
+		assert!(a.is_finite(), "and finite: a product with a silent sample can never be NaN");
 		if d > 0.0 { assert!(a >= 1.0); }
 		if d < 0.0 { assert!(a <= 1.0); }
 	}
@@ -57,10 +58,11 @@ fn c19_db_law_is_10_pow_db_over_20() {
 	let d: f32 = kani::any();
 	kani::assume(!d.is_nan() && d > -60.0 && d != 0.0);
 	let a = Decibels(d).as_amplitude();
-	if cfg!(kv_native) { assert!(a.to_bits() == 10.0f32.powf(d / 20.0).to_bits(), "native: amplitude == 10^(dB/20)"); return; }
+	let sat = |x: f32| if x == f32::INFINITY { f32::MAX } else { x }; // overflow saturates at the largest finite amplitude
+	if cfg!(kv_native) { assert!(a.to_bits() == sat(10.0f32.powf(d / 20.0)).to_bits(), "native: amplitude == 10^(dB/20)"); return; }
 	unsafe {
 		assert!(KV_SPY_CALLS == 1 && KV_SPY_B == 10.0 && KV_SPY_E.to_bits() == (d / 20.0).to_bits());
-		assert!(a.to_bits() == KV_SPY_R.to_bits());
+		assert!(a.to_bits() == sat(KV_SPY_R).to_bits(), "the amplitude is what powf returned (saturated if it overflowed)");
 	}
 	kani::cover!(d > 0.0, "w:gain");
 }
